@@ -1,24 +1,36 @@
 (* C03 - No silent corruption: 'complete' always means the sender's exact bytes. *)
-From FluteV Require Import Model.ObjRecv Model.Recv Spec.RecvSpec Proofs.RecvProofs Proofs.C09Full.
+From FluteV Require Import Model.ObjRecv Model.Recv Spec.RecvSpec Proofs.RecvProofs Proofs.C09Full Proofs.C02Full.
 Open Scope N_scope.
 
-(* Full statement (kept visible): for every list of packets drawn from the genuine packets of a
-   session (any order, multiplicity, subset), every writer that received complete was written
-   exactly the sender's object (P_C03_writer with guarded = true); with an announced and checked
-   MD5 the same holds for arbitrary payload bytes.  Evaluated on the implementation's callbacks
-   on every run (permutations, sub-multisets, duplications, payload bit flips and truncations,
-   all schemes, content encodings, signalling modes); as a theorem it is proved so far through
-   the mechanisms of C09 (nothing after a terminal call, one terminal call) - partial. *)
-Definition C03_complete_implies_exact_full : Prop :=
-  forall (E : env) (parse_fdt : list N -> option fdtinst) cfg evs content,
-    (* evs pushes only genuine packets of an object whose transfer bytes are [content] *) True ->
-    let '(_, _, c) := recv_run E parse_fdt cfg recv0 evs ctx0 in
-    forall w, P_C03_writer content true (calls_of w (c_log c)) = true.
+(* Object-level statement, proved for the No-Code scheme without content encoding (Proofs/C02Full.v):
+   a fresh object receiver with the FDT entry of the object attached (OTI, L = |content| > 0, MD5, cenc
+   null; the builder stores it and open() succeeds) is fed ANY list of genuine packets - any order, any
+   multiplicity, any subset, with or without the close-object flag - whatever write() answers, whatever
+   the MD5 check says, whatever max_size_allocated and the number of blocks are.  Then for every writer:
+   the bytes written so far are a prefix of [content], and P_C03_writer holds with guarded = true
+   (completed implies written = content; never both completed and failed).  The statement quantifies
+   over every packet list, hence holds at every point of a reception.
+   Not covered: the other FEC schemes, content encodings, altered payloads guarded by MD5, and the
+   session level above or_attach (Model/Recv.v). *)
+Theorem C03_nocode_complete_implies_exact : forall E oti content toi max fid files inst md5 pkts,
+  let L := lenN_ content in
+  nocode_ok oti L -> fdt_entry_for files inst toi oti L md5 -> writer_accepts E toi ->
+  Forall (fun p => genuine_pkt oti content p = true) pkts ->
+  let (o, c) := receive E fid files inst toi max pkts in
+  forall w, is_prefix (written (calls_of w (c_log c))) content = true
+            /\ P_C03_writer content true (calls_of w (c_log c)) = true.
+Proof. exact nocode_safety. Qed.
+Print Assumptions C03_nocode_complete_implies_exact.
 
 (* never both: the automaton of C09 has no transition out of the terminal state *)
 Theorem C03_never_complete_and_failed : forall content call, c09_step content PhDone call = None.
 Proof. exact nothing_after_terminal. Qed.
 Print Assumptions C03_never_complete_and_failed.
+
+Theorem C03_closed_object_ignores_packets : forall E p o c,
+  r_state o <> Receiving -> or_push E p o c = (o, c).
+Proof. exact closed_object_ignores_packets. Qed.
+Print Assumptions C03_closed_object_ignores_packets.
 
 (* never both, at history level: whatever the receiver is fed and whatever the builder and the
    writers answer, no writer receives both a complete and an error/interrupted call (second
@@ -29,14 +41,17 @@ Theorem C03_never_complete_and_failed_history : forall E parse_fdt cfg evs,
 Proof. exact never_complete_and_failed_history. Qed.
 Print Assumptions C03_never_complete_and_failed_history.
 
-Theorem C03_closed_object_ignores_packets : forall E p o c,
-  r_state o <> Receiving -> or_push E p o c = (o, c).
-Proof. exact closed_object_ignores_packets. Qed.
-Print Assumptions C03_closed_object_ignores_packets.
-
 Example C03_example :
   P_C03_writer [1;2;3] true [CallOpen true; CallWrite [1;2;3] true; CallComplete] = true
   /\ P_C03_writer [1;2;3] true [CallOpen true; CallWrite [1;2;4] true; CallComplete] = false
   /\ P_C03_writer [1;2;3] true [CallOpen true; CallWrite [1;2;4] true; CallError] = true
   /\ P_C03_writer [1;2;3] true [CallOpen true; CallError; CallComplete] = false.
+Proof. vm_compute. repeat split. Qed.
+
+(* non-vacuity: a strict subset of the packets of a 2-block object (block 1 and half of block 0), then the
+   close-object flag early: nothing but prefixes is ever written, and no complete is issued *)
+Example C03_example_partial_reception :
+  forallb (genuine_pkt ex_oti ex_content) (firstn 3 ex_pkts) = true
+  /\ summary 7 (receive env_ok 1 ex_files None 7 1000 (firstn 3 ex_pkts)) = (Receiving, [CallOpen true])
+  /\ summary 7 (receive env_ok 1 ex_files None 7 1000 ex_pkts_flag_first) = (Interrupted, [CallOpen true; CallInterrupted]).
 Proof. vm_compute. repeat split. Qed.
